@@ -390,6 +390,11 @@ def run(ctx):
     check_journal_order(ctx)
     check_recover_order(ctx)
     check_rotate_id(ctx)
+    # the two neighbouring properties this one rests on are decided here as well (same obligations as C03 / C10):
+    # a torn journal tail is cut back to the last complete unit and what is appended afterwards is read back; a sealed journal is unlinked only when nothing in it is needed
+    from . import c03, c10
+    c03.check_cuts(ctx, c03.SHAPES_QUICK[0], 0, step=1 if ctx.tier == 'thorough' else 1)
+    c10.check_maintenance(ctx, confirm=lambda: native_crash(ctx))
     ctx.assumptions += [
         'F1/F2: BufWriter::flush hands all buffered bytes to the OS in order; a process crash keeps what was handed to the OS (power loss: C09)',
         'E1: lsm-tree memtable inserts cannot fail; a flushed table contains only items that were applied to a memtable before',
